@@ -164,3 +164,30 @@ func VxH_C04_shared_rule() {
 	vx.Assert("second-element-width", vx.ApproxEq(float64(sb.GetWidth().Value), float64(x*fb)))
 	vx.Assert("second-element-margin", vx.ApproxEq(float64(sb.GetMarginLeft().Value), float64(y*fb)))
 }
+
+// relative keywords on the root element are resolved against the initial values.
+func VxH_C04_relative_on_root() {
+	root, _ := vxDoc()
+	var d validation.Declaration
+	want := 0
+	switch vx.Choose("decl", 4) {
+	case 0:
+		d, want = vxDecl(pr.PFontWeight, pr.IntString{String: "bolder"}), 700
+	case 1:
+		d, want = vxDecl(pr.PFontWeight, pr.IntString{String: "lighter"}), 100
+	case 2:
+		d, want = vxDecl(pr.PFontSize, pr.DimOrS{S: "larger"}), 0
+	default:
+		d, want = vxDecl(pr.PFontSize, pr.DimOrS{S: "smaller"}), 0
+	}
+	sf := newStyleFor(&HTML{Root: root}, []sheet{{origin: "author", sheet: CSS{matcher: matcher{vxRule("html", d)}}}}, false, nil, nil)
+	st := sf.Get(root, "")
+	w := st.GetFontWeight()
+	fs := st.GetFontSize()
+	vx.Reach("computed")
+	if want != 0 {
+		vx.Assert("font-weight-relative-to-initial", w.Int == want)
+	} else {
+		vx.Assert("font-size-finite", fs.Value > 0)
+	}
+}
